@@ -7,7 +7,7 @@ usage: tools/mutants.py [--tests] [--isolated] [name ...]
 usable while the mutants run; the copies are refreshed from the current trees first."""
 import json, os, subprocess, sys, time
 V = os.path.dirname(os.path.dirname(os.path.abspath(__file__)))
-REPO = "/repo"
+REPO = os.environ.get("VERIF_REPO", "/repo")  # isorun.py sets it to its copy
 ISO = "/tmp/mut"
 if "--isolated" in sys.argv:
     os.makedirs(ISO, exist_ok=True)
